@@ -181,6 +181,11 @@ void h_m3_det_mult(void){ %(da9)s %(db9)s u32 ab[9];
     M['vf_m4_transform'] = ([fo(6)], vec(['%s * x0 + %s * x1 + %s * x2 + %s' % tuple(A4m[r]) for r in range(3)] + ['%s * x0 + %s * x1 + %s * x2' % tuple(A4m[r][:3]) for r in range(3)]), 'transform_point = (M (v,1))_xyz, transform_direction = (M (v,0))_xyz')
     det4 = '(' + ' + '.join('%s%s * %s' % ('' if c % 2 == 0 else '0u - ', A4m[c][0], det3(minor(A4m, c, 0))) for c in range(4)) + ')'
     M['vf_m4_det'] = ([], '__CPROVER_return_value == (u32)%s' % det4, 'determinant 4x4 by cofactor expansion along the first column')
+    A23 = [['a0', 'a1', 'a2'], ['a3', 'a4', 'a5']]; B32 = [['b0', 'b1'], ['b2', 'b3'], ['b4', 'b5']]
+    prod = lambda X, Y: [['(' + ' + '.join('%s * %s' % (X[r][k], Y[k][c]) for k in range(len(Y))) + ')' for c in range(len(Y[0]))] for r in range(len(X))]
+    flat = lambda Mx: [e for row in Mx for e in row]
+    M['vf_m23_m32_mul'] = ([fo(12)], vec(flat(prod(A23, B32)) + flat([[A23[c][r] for c in range(2)] for r in range(3)]) + ['a0 * b0 + a1 * b2 + a2 * b4', 'a3 * b0 + a4 * b2 + a5 * b4']),
+                           'non-square matrices: (2x3)*(3x2), transpose of a 2x3 matrix, (2x3)*vector3 - every entry sums over the SHARED inner dimension')
     mspec = ''
     for f, (req, ens, what) in M.items():
         outs = ', '.join('__CPROVER_object_whole(%s)' % o for o in (('os', 'ou') if 'os' in ''.join(req) else (('o',) if req else ())))
